@@ -34,6 +34,8 @@ ASSUMPTIONS = [
 
 
 def classify_exc(out) -> None:
+    if out.unrenderable:
+        raise Violation("error-not-renderable-as-400", f"the protocol error cannot be encoded into the 400 response the server builds from it: {out.unrenderable}"[:300])
     e = out.other_exc
     if e is not None:
         if out.unusable_url:
